@@ -1148,6 +1148,12 @@ def gen_C18(r):
                                     "when": r.choice(["call", "ret"])})
             ops.append(kop)
             op = dict(op, flags=dict(op["flags"], again=True), gap=r.choice([1.0, 2.0]))
+        elif k and combines and r.random() < 0.08:
+            # the output directory of a combine task moved to another volume (a symbolic link took its place): the
+            # entries made from now on must still lead to the dependencies' outputs
+            from . import model as M_
+
+            ops.append({"op": "plant", "items": [{"kind": "relocate_path", "path": M_.out_dir_rel(r.choice(combines))}]})
         elif k and r.random() < 0.15:
             # an old version directory deleted by hand to free space (the entry that points at it dangles), or
             # moved to another volume and replaced by a symbolic link
